@@ -263,7 +263,9 @@ def config(rng, lang):
     if lang == 'swift':
         return {'prefix': rng.choice(['', '', 'OP']), 'codablevoid_constraints': rng.choice([[], ['Equatable']])}
     if lang == 'scala':
-        return {'package': rng.choice(['com.p', 'com.agilebits.onepassword']), 'module_name': 'm'}
+        # 'p': a package name without a dot - since the /repo fix of C10-scala-toplevel-alias the helper aliases stand inside
+        # `package object p {` there as well
+        return {'package': rng.choice(['com.p', 'com.agilebits.onepassword', 'p']), 'module_name': 'm'}
     if lang == 'kotlin':
         return {'package': rng.choice(['com.p', 'com.p', 'com.p', '']), 'module_name': 'm', 'prefix': rng.choice(['', 'OP'])}
     if lang == 'go':
@@ -490,6 +492,9 @@ WITNESSES = [
     # variations below) must pass - an undefined T / parse_rfc3339 / serialize_datetime_data is a violation again.
     ('C12-scala-unsigned-depth', 'scala', {'package': 'com.p', 'module_name': 'm'}, '#[typeshare]\npub type Grid = Vec<Vec<u16>>;\n'),
     ('C12-scala-unsigned-depth', 'scala', {'package': 'com.p', 'module_name': 'm'}, '#[typeshare]\npub struct S {\n    pub a: [u8; 2],\n    pub b: &\'static [u32],\n}\n'),
+    # directed: the helper aliases under a package name without a dot (C10-scala-toplevel-alias, FIXED in /repo: `package object p {`
+    # is opened around them); judged like any other input
+    ('C10-scala-toplevel-alias', 'scala', {'package': 'p', 'module_name': 'm'}, '#[typeshare]\npub type Al = Vec<u32>;\n#[typeshare]\npub struct A {\n    pub x: u8,\n}\n'),
     ('C12-python-alias-typevar', 'python', {}, '#[typeshare]\npub type GA<T> = Vec<T>;\n'),
     ('C12-python-default-translation', 'python', {}, '#[typeshare]\npub struct S {\n    #[serde(default)]\n    pub at: OffsetDateTime,\n}\n'),
     ('C12-python-default-translation', 'python', {'type_mappings': {'Vec<u8>': 'bytes'}}, '#[typeshare]\npub struct S {\n    #[serde(default)]\n    pub raw: Vec<u8>,\n}\n'),
